@@ -24,12 +24,15 @@ const staleByte = 0xEE // what the previous client's reply left in the TX storag
 
 var serveChain = middleware.NewChain(nil)
 
-// `msg serve <ub|ud|ts|tl> <directPack> lib=<outcome> ulen=<n>`
+// `msg serve <ub|ud|ts|tl> <directPack> <-|abort|abort2|commit> lib=<outcome> ulen=<n>`
+// history: what the wire fast path did on this job before the reply — nothing; took the body lease, wrote part of a
+// body and aborted (once / twice); or built the whole reply in the lease and committed it (then THAT is the reply).
 func execServe(f []string) vlib.Res {
-	if cur == nil || len(f) < 6 {
+	if cur == nil || len(f) < 7 {
 		return vlib.Res{Impl: "bad-op"}
 	}
-	tr, dp := f[2], f[3] == "t"
+	tr, dp, hist := f[2], f[3] == "t", f[4]
+	f = append(append([]string(nil), f[:4]...), f[5:]...)
 	under, ref, pristine := rebuild(), rebuild(), rebuild()
 	want := libPack(ref.m)
 	if f[4] != "lib="+want.String() || f[5] != fmt.Sprintf("ulen=%d", under.ulen()) {
@@ -77,10 +80,41 @@ func execServe(f []string) vlib.Res {
 		serveChain.AllowDirectPack()
 	}
 	var werr error
-	got := capture(func() ([]byte, error) {
-		werr = serveChain.Writer.WriteMsg(under.m)
-		return nil, werr
-	})
+	committed := false
+	leaser, canLease := serveChain.Writer.(middleware.WireBodyLeaser)
+	if hist != "-" && !canLease {
+		return vlib.Res{Impl: "skipped", Oracle: "FAIL sig=harness/base-writer-does-not-lease"}
+	}
+	abort := func(n int) {
+		if dst := leaser.BeginWire(n+40, 16); dst != nil {
+			dst = append(dst, bytes.Repeat([]byte{0xDD}, n)...)
+			_ = dst
+		}
+		leaser.AbortWire()
+	}
+	switch hist {
+	case "abort":
+		abort(150)
+	case "abort2":
+		abort(0)
+		abort(900)
+	case "commit":
+		if want.kind == "ok" {
+			body := leaser.BeginWire(len(want.b), 16)
+			body = append(body, want.b...)
+			werr = leaser.CommitWire(body, middleware.WireInfo{Rcode: under.m.Rcode})
+			committed = true
+		} else {
+			abort(64)
+		}
+	}
+	got := outcome{kind: "ok"}
+	if !committed {
+		got = capture(func() ([]byte, error) {
+			werr = serveChain.Writer.WriteMsg(under.m)
+			return nil, werr
+		})
+	}
 	frames := sent()
 	if prev != nil && got.kind != "panic" {
 		if len(frames) == 0 || !bytes.Equal(frames[0], prev) {
@@ -123,7 +157,7 @@ func execServe(f []string) vlib.Res {
 	case dp && !unchanged(under.m, pristine.m) && runTryPack(rebuild().m).handled: // on the library path the transport packs
 		or = "FAIL sig=serve/message-mutated/" + mutationClass(under.m, pristine.m)
 	}
-	tags := "nt,serve,serve-" + tr
+	tags := "nt,serve,serve-" + tr + ",lease-" + hist
 	if want.kind == "ok" && under.ulen() > 4096 && len(want.b) <= 4096 {
 		tags += ",declined-but-fits"
 	}
